@@ -105,7 +105,11 @@ func uniquify(f *File, auto AutoCfg) {
 				}
 				for _, c := range s.Switch.Cases {
 					if !c.IsDefault {
-						c.Val = []string{fmt.Sprint(1000 + next())}
+						if n := next(); n%3 == 0 {
+							c.Val = []string{fmt.Sprintf("CASE_U%d", n)}
+						} else {
+							c.Val = []string{fmt.Sprint(1000 + n)}
+						}
 					}
 					doBlock(c.Body)
 				}
@@ -310,6 +314,11 @@ func checkC16(c *C16Case) *Violation {
 			st.Label("rejected")
 			st.Note("last_rejection", clip(plain.Err.Error()+"\n"+src, 800))
 			return nil
+		}
+		for _, l := range ParseAsm(plain.Out).Lines {
+			if l.IsMark {
+				return viol("markers-without-lm", "a marker line %q in the -lm=false output (path %q)\n--- source\n%s--- output\n%s", l.Raw, c.Path, src, plain.Out)
+			}
 		}
 		o.LineMarkers = true
 		lm := Compile(src, o)
@@ -534,6 +543,40 @@ func genC16(t *rapid.T) *C16Case {
 	}
 	f := GenFile(t, cfg)
 	uniquify(f, c16Auto)
+	if rapid.IntRange(0, 2).Draw(t, "selfconsts") == 0 {
+		// constants that stand for themselves (const CASE_U7 = CASE_U7): the output text is unchanged, but every
+		// use of the name goes through constant substitution and must keep the position of the written token
+		var names []string
+		seenName := map[string]bool{}
+		note := func(toks []string) {
+			if len(toks) == 1 && !seenName[toks[0]] && (strings.HasPrefix(toks[0], "CASE_U") || strings.HasPrefix(toks[0], "FLAG_U") || strings.HasPrefix(toks[0], "VAR_U") || strings.HasPrefix(toks[0], "VAR_S") || strings.HasPrefix(toks[0], "TRAINER_U")) {
+				seenName[toks[0]] = true
+				names = append(names, toks[0])
+			}
+		}
+		for _, sc := range f.Scripts() {
+			walkStmts(sc.Body, func(s *Stmt) {
+				for _, e := range stmtConds(s) {
+					walkLeaves(e, func(l *Leaf) { note(l.Operand) })
+				}
+				if s.K == "switch" {
+					note(s.Switch.Var)
+					for _, cs := range s.Switch.Cases {
+						note(cs.Val)
+					}
+				}
+			})
+		}
+		if len(names) > 0 {
+			k := rapid.IntRange(1, min(4, len(names))).Draw(t, "nselfconsts")
+			perm := rapid.Permutation(names).Draw(t, "selfconstnames")
+			var tops []*Top
+			for _, n := range perm[:k] {
+				tops = append(tops, &Top{K: "const", Const: &Const{Name: n, Val: []string{n}}})
+			}
+			f.Tops = append(tops, f.Tops...)
+		}
+	}
 	c := &C16Case{File: f, Auto: c16Auto, Switches: map[string]string{"V": rapid.SampledFrom([]string{"A", "B", "zz"}).Draw(t, "v"), "W": rapid.SampledFrom([]string{"A", "1", "q"}).Draw(t, "w")}}
 	c.Path = rapid.SampledFrom([]string{"data/maps/Town/scripts.pory", "scripts.pory", `C:\decomp\data\scripts.pory`, "", "a b/ü.pory", "data/My%20Town/100%.pory", "%s%d%v.pory"}).Draw(t, "path")
 	c.Gaps = drawGaps(t, len(PrintFile(f).Toks), true)
@@ -546,7 +589,7 @@ func TestC16_Regress(t *testing.T) { runRegress(t, "C16") }
 
 func TestC16_Markers(t *testing.T) {
 	st := stat("C16")
-	st.SetRule("whole files (scripts with control flow, AutoVar conditions and switches, inline text and moves(), texts, movements, marts, mapscripts with inline scripts and tables, multi-line raw blocks incl. CRLF and empty ones) in which every construct has content of its own (unique command names / arguments, operands, case values, steps, items, texts, raw lines), printed under a random layout (constructs spread over lines, blank lines, CRLF, # and // comments); input path: several shapes incl. backslashes and empty. oracle (optimize on and off): stripping the marker lines of the -lm output gives the -lm=false output; no markers without a path; every marker names the path and a line in 1..N; the marker before a command, label, condition operand (also of AutoVar leaves), switch operand, case, mart item, movement step, map-script entry / table row, text statement or moves() block names a line inside that construct's source span, for an inline text a line of its string literal; raw-line markers name exactly the line of the raw literal + index. non-trivial = >= 5 kinds of constructs identified, many line breaks and a comment; distinct by source text")
+	st.SetRule("whole files (scripts with control flow, AutoVar conditions and switches, inline text and moves(), texts, movements, marts, mapscripts with inline scripts and tables, multi-line raw blocks incl. CRLF and empty ones) in which every construct has content of its own (unique command names / arguments, operands, case values, steps, items, texts, raw lines; one file in three defines constants that stand for themselves so that operands and case values pass through constant substitution), printed under a random layout (constructs spread over lines, blank lines, CRLF, # and // comments); input path: several shapes incl. backslashes and empty. oracle (optimize on and off): stripping the marker lines of the -lm output gives the -lm=false output; no markers without a path; every marker names the path and a line in 1..N; the marker before a command, label, condition operand (also of AutoVar leaves), switch operand, case, mart item, movement step, map-script entry / table row, text statement or moves() block names a line inside that construct's source span, for an inline text a line of its string literal; raw-line markers name exactly the line of the raw literal + index. non-trivial = >= 5 kinds of constructs identified, many line breaks and a comment; distinct by source text")
 	st.Assume("'the line on which the construct was written' = any line of the construct's source span", "constructs whose output line is not unique (goto, end, return, step_end, ITEM_NONE) are not attributed")
 	runRapid(t, "C16", "TestC16_Markers", genC16, checkC16, c16Src)
 }
